@@ -36,6 +36,7 @@ type TEnv struct {
 	vars        map[string]TV
 	lookup      func(string) (TV, bool)
 	lookupOld   func(string) (TV, bool)
+	visitedOf   func(h Heap) string
 	cur, old    Heap
 	results     []TV
 	resultNames []string
@@ -620,6 +621,28 @@ func (env *TEnv) trCall(x *ECall) (TV, error) {
 			return TV{"(mk-iface 0 0)", types.NewInterfaceType(nil, nil)}, nil
 		}
 		return TV{Ite(S("=", a.T, "0"), "(mk-iface 0 0)", S("mk-iface", fmt.Sprint(eng.typeTag(a.Ty)), a.T)), types.NewInterfaceType(nil, nil)}, nil
+	case "addr": // addr(v): the address of a heap-allocated local variable v
+		id, ok := x.Args[0].(*EIdent)
+		if !ok || env.f == nil {
+			return TV{}, fmt.Errorf("addr(variable)")
+		}
+		for _, r := range env.f.debug[id.Name] {
+			if r.addr {
+				if t, ok := env.f.vals[r.val]; ok {
+					return TV{t, r.val.Type()}, nil
+				}
+			}
+		}
+		return TV{}, fmt.Errorf("addr(%s): not an address-taken heap variable", id.Name)
+	case "visited": // visited(k): key k was already produced by the map range of this loop
+		if env.visitedOf == nil {
+			return TV{}, fmt.Errorf("visited() outside a map-range loop clause")
+		}
+		k, err := env.tr(x.Args[0])
+		if err != nil {
+			return TV{}, err
+		}
+		return TV{S("select", env.visitedOf(env.cur), k.T), tBool}, nil
 	case "arr": // backing array reference of a slice
 		a, err := env.tr(x.Args[0])
 		if err != nil {
